@@ -1053,16 +1053,17 @@ package reflect
 //@   ensures c02_value: err == nil ==> r == Wslot(t, M, p, b)
 //@   ensures c04_len: err == nil ==> slen(r) == slen(b) + SZslot(t, M, p)
 
+// C01 (the bytes written can be decoded again): a nil struct is written as an empty struct, which a
+// decoder accepts only if the struct type has no required field. KNOWN FINDING (known_findings.json):
+// this does not hold - a nil non-optional *S, or a nil element of list<S>, with S{A required} encodes
+// to a message that DecodeObject rejects with "required field A is not set".
 //@ func appendStruct(t *tType, b []byte, base unsafe.Pointer) (r []byte, err error)
 //@   abstract b, r
 //@   requires c02_row: t != nil && wfSD(t.Sd)
 //@   modifies nothing
 //@   ensures c02_value: err == nil ==> r == WS(t.Sd, M, base, b)
-// C01 (the bytes written can be decoded again): a nil struct is written as an empty struct, which a
-// decoder accepts only if the struct type has no required field. KNOWN FINDING (known_findings.json):
-// this does not hold - a nil non-optional *S, or a nil element of list<S>, with S{A required} encodes
-// to a message that DecodeObject rejects with "required field A is not set".
-//@   ensures c01_nilreq: base == nil ==> len(t.Sd.requiredFieldIDs) == 0
+//@   ensures c04_len: err == nil ==> slen(r) == slen(b) + SZS(t.Sd, M, base)
+//@   assert c01_nilreq: base == nil ==> len(t.Sd.requiredFieldIDs) == 0
 //@   loop 0 invariant c02_fields: b == WF(sd, M, base, rangeindex + 1, old(b))
 //@   loop 0 invariant c04_fields: slen(b) == slen(old(b)) + SZF(sd, M, base, rangeindex + 1)
 //@   loop 0 hint c02_skipped: fskip(f, M, base) ==> b == head(b)
